@@ -19,8 +19,8 @@ RULE = ('tuples of 1-5 page layouts x 1-6 lines with identical ids, per-engine c
 ASSUMPTIONS = ['every transcription is over its own engine\'s charset', 'the mean character confidence is the repository\'s get_line_confidence (itself under the C16 contracts), 0.5 per character when alignment raises ValueError, -10 for empty/None',
                'confidence equality within 1e-12']
 N = {'quick': 1500, 'thorough': 60000}
-CLASSES = ['mixed', 'mixed', 'ties', 'self_merge', 'all_empty', 'different_charsets', 'single_engine', 'unalignable', 'per_line_charsets', 'merge_of_merges', 'near_ties', 'raw_scores', 'repeated_ids', 'same_text']
-REQUIRED = ['winner_not_first_with_the_same_text', 'near_ties_checked', 'lines_with_ids_repeated_per_region', 'raw_score_lines', 'main_runs', 'main_tie_lines', 'per_line_charset_merges', 'merges', 'lines_checked', 'winner_not_first', 'ties_checked', 'self_merges', 'no_positive_confidence_lines']
+CLASSES = ['mixed', 'mixed', 'ties', 'self_merge', 'all_empty', 'different_charsets', 'single_engine', 'unalignable', 'per_line_charsets', 'merge_of_merges', 'near_ties', 'raw_scores', 'repeated_ids', 'same_text', 'regrouped']
+REQUIRED = ['merges_of_differently_grouped_layouts', 'winner_not_first_with_the_same_text', 'near_ties_checked', 'lines_with_ids_repeated_per_region', 'raw_score_lines', 'main_runs', 'main_tie_lines', 'per_line_charset_merges', 'merges', 'lines_checked', 'winner_not_first', 'ties_checked', 'self_merges', 'no_positive_confidence_lines']
 
 
 def setup(ctx):
@@ -99,7 +99,7 @@ def describe(case):
     return case
 
 
-def build_layout(L, eng, nl, ids_per_region=False):
+def build_layout(L, eng, nl, ids_per_region=False, first_region_lines=None):
     pl = L.PageLayout(id='p', page_size=(400, 600))
     regs = [L.RegionLayout('r1', np.array([[0, 0], [600, 0], [600, 200], [0, 200]])), L.RegionLayout('r2', np.array([[0, 200], [600, 200], [600, 400], [0, 400]]))]
     for k, ld in enumerate(eng['lines']):
@@ -126,7 +126,7 @@ def build_layout(L, eng, nl, ids_per_region=False):
                           heights=[15.0, 6.0], transcription=t, logits=sparse.csc_matrix(lg), characters=list(cs) + ['<b>'], logit_coords=[0, lg.shape[0]])
         # engine outputs read from PAGE XML already carry a (rounded) confidence of their own; merging compares what the posteriors say
         line.transcription_confidence = [None, 0.999, 0.0, 0.5, 0.812][(ld['seed'] + k) % 5]
-        regs[k % 2].lines.append(line)
+        regs[k % 2 if first_region_lines is None else (0 if k < first_region_lines else 1)].lines.append(line)
     pl.regions = regs
     return pl
 
@@ -147,7 +147,12 @@ def expected_conf(ctx, line):
 def run_merge(case, order, mon, ctx):
     L, M = ctx.layout, ctx.M
     engines = [case['engines'][k] for k in order]
-    layouts = [build_layout(L, e, case['nl'], ids_per_region=case.get('ids_per_region', False)) for e in engines]
+    if case['cls'] == 'regrouped':
+        # the engines list the same lines in the same order but group them into regions differently (one engine ran after a layout correction)
+        layouts = [build_layout(L, e, case['nl'], first_region_lines=[(case['nl'] + 1) // 2, case['nl'], 1, 0][k % 4]) for k, e in enumerate(engines)]
+        mon.count('merges_of_differently_grouped_layouts')
+    else:
+        layouts = [build_layout(L, e, case['nl'], ids_per_region=case.get('ids_per_region', False)) for e in engines]
     if case['cls'] == 'merge_of_merges' and len(layouts) >= 3:
         # multi-step history: merge(E1, E2) first, then merge the result with the remaining engines
         M.merge_layouts(layouts[:2])
